@@ -164,3 +164,95 @@ Definition model_sound_g_statement : Prop :=
     nth_error (run_history p init_state ops) i = Some r ->
     r_out r = RValue z ->
     MdlSpec p (inputs_after (firstn i ops)) n z.
+
+(** * external inputs
+    An external input is executed on first demand (its value is what the world answers then) and
+    afterwards only by a refreshing session.  Which request demands it first depends on the
+    engine's own bookkeeping (a stale dependency re-run by a repair walk may demand an external
+    input the from-scratch evaluation of the root would not read), so its committed value is
+    specified by REPLAY: the value of external input [k] after operation [i] is what the world
+    answered at the last operation [j <= i] whose execution list ([r_execs], the executor
+    invocations the correspondence check compares) contains it. *)
+Definition xenv := N -> option Z.
+Definition menv := (inputs * xenv)%type.
+Definition no_ext : xenv := fun _ => None.
+
+Fixpoint mxexpr (fuel : nat) (p : program) (env : menv) (e : expr) {struct fuel} : option Z :=
+  match fuel with
+  | O => None
+  | S f =>
+    match e with
+    | EConst z => Some z
+    | ERead n =>
+        match nkind n with
+        | KInput => input_get (fst env) (nidx n)
+        | KExternal => snd env (nidx n)
+        | KNormal | KFirewall | KProjection => do b <- alookup p n; mxexpr f p env b
+        end
+    | EAdd a b => do x <- mxexpr f p env a; do y <- mxexpr f p env b; Some (x + y)
+    | EMul a b => do x <- mxexpr f p env a; do y <- mxexpr f p env b; Some (x * y)
+    | ELt a b => do x <- mxexpr f p env a; do y <- mxexpr f p env b; Some (if x <? y then 1 else 0)
+    | EMod a m => do x <- mxexpr f p env a; Some (x mod m)
+    | EIf c a b => do x <- mxexpr f p env c; mxexpr f p env (if x =? 0 then b else a)
+    | EGroup [] => Some 0
+    | EGroup (n :: ns) => do x <- mxexpr f p env (ERead n); do y <- mxexpr f p env (EGroup ns); Some (x + y)
+    end
+  end.
+Definition MdlSpecX (p : program) (env : menv) (n : node) (v : Z) : Prop :=
+  exists fuel, mxexpr fuel p env (ERead n) = Some v.
+
+(** programs that may read external inputs (which have no body); a projection still reads only
+    firewalls and projections *)
+Definition is_mtarget_kind (k : kind) : bool :=
+  match k with KInput | KExternal => true | _ => false end.
+Record wf_model_x (p : program) : Prop := {
+  wfx_keys : forall n e, In (n, e) p -> is_mexec_kind (nkind n) = true;
+  wfx_targets : forall n e d, In (n, e) p -> In d (expr_reads e) ->
+                 is_mtarget_kind (nkind d) = true \/ (is_mexec_kind (nkind d) = true /\ alookup p d <> None);
+  wfx_proj : forall n e d, In (n, e) p -> nkind n = KProjection -> In d (expr_reads e) ->
+                 is_fw_or_proj (nkind d) = true;
+  wfx_rank : exists rank : node -> nat, forall n e d, In (n, e) p -> In d (expr_reads e) ->
+                 is_mexec_kind (nkind d) = true -> (rank d < rank n)%nat;
+}.
+Lemma wf_model_x_of : forall p, wf_model_g p -> wf_model_x p.
+Proof.
+  intros p [A B C D]. split; auto. intros n e d H Hd. destruct (B n e d H Hd) as [K|K]; [left; rewrite K; reflexivity|right; exact K].
+Qed.
+
+(** the world after a history *)
+Definition world_set (w : list (N * Z)) (i : N) (v : Z) : list (N * Z) :=
+  (i, v) :: filter (fun '(k, _) => negb (k =? i)%N) w.
+Definition world_val (w : list (N * Z)) (i : N) : Z :=
+  match find (fun '(k, _) => (k =? i)%N) w with Some (_, v) => v | None => 0 end.
+Definition world_op (w : list (N * Z)) (o : op) : list (N * Z) :=
+  match o with OSetWorld i v => world_set w i v | _ => w end.
+Definition world_after (ops : list op) : list (N * Z) := fold_left world_op ops [].
+
+(** replay: the values of the external inputs after the operations [ops] with results [rs] *)
+Definition ext_node (k : N) : node := mkNode KExternal k.
+Definition ext_step (acc : xenv * list (N * Z)) (or : op * opres) : xenv * list (N * Z) :=
+  let '(xe, w) := acc in
+  let '(o, r) := or in
+  let w' := world_op w o in
+  ((fun k => if nmem (ext_node k) (r_execs r) then Some (world_val w' k) else xe k), w').
+Definition ext_after (ops : list op) (rs : list opres) : xenv :=
+  fst (fold_left ext_step (combine ops rs) (no_ext, [])).
+
+(** C01 with external inputs: every history *)
+Definition model_sessions_fuelled_x := model_sessions_fuelled.
+Definition model_sound_x_statement_f : Prop :=
+  forall fuel pfuel p ops i n r z, wf_model_x p ->
+    msessions_fuelled fuel pfuel p ops i ->
+    nth_error ops i = Some (OQuery n) ->
+    nth_error (run_history_f fuel pfuel p init_state ops) i = Some r ->
+    r_out r = RValue z ->
+    MdlSpecX p (inputs_after (firstn i ops),
+                ext_after (firstn (S i) ops) (firstn (S i) (run_history_f fuel pfuel p init_state ops))) n z.
+Definition model_sound_x_statement : Prop :=
+  forall p ops i n r z, wf_model_x p ->
+    model_sessions_fuelled p ops i ->
+    nth_error ops i = Some (OQuery n) ->
+    nth_error (run_history p init_state ops) i = Some r ->
+    r_out r = RValue z ->
+    MdlSpecX p (inputs_after (firstn i ops),
+                ext_after (firstn (S i) ops) (firstn (S i) (run_history p init_state ops))) n z.
